@@ -93,8 +93,7 @@ Proof.
   destruct (ps_before s) as [|cur [|p r]]; destruct (ps_after s) as [|x a].
   1-5: destruct (ps_first_line s) as [l|]; [destruct (N.leb 1 l)|]; split; reflexivity.
   destruct (find_prev (p :: r) (ps_pos s - 2) (ps_kept s)) as [[prev prev_pos]|]; [|split; reflexivity].
-  destruct (Nat.eqb (tk_fileid prev) (tk_fileid cur)); [|split; reflexivity].
-  match goal with |- context [if N.leb ?a ?b then _ else _] => destruct (N.leb a b) end; split; reflexivity.
+  repeat match goal with |- context [if ?c then _ else _] => destruct c end; split; reflexivity.
 Qed.
 
 (* the recoverable-problem sites of the primitives: strict success means the problem did not occur *)
